@@ -25,3 +25,4 @@ func vSymbolic() bool
 func vParam(name string, def int) int
 func vGoID() int
 func vFuncID(f any) uintptr
+func vRank(s string) int
